@@ -77,12 +77,12 @@ def detectRoute (routes : List Route) (req : Req) : Except (Nat × Option (List 
   let c2 := c1.filter (fun r => req.method = r.method)
   if c2.isEmpty then .error (405, some (allowedMethods c1 [])) else
   let c3 := c2.filter (matchesContentType · req.contentType)
-  if c3.isEmpty && decide (req.contentLength > 0) then .error (415, none) else
+  if c3.isEmpty && decide (req.contentLength ≠ 0) then .error (415, none) else
   let accept := if req.accept.isEmpty then starStar else req.accept
   let c4 := c3.filter (matchesAccept · accept)
   match c4 with
   | [] =>
-    if bodylessMethods.contains req.method && (req.clenHeader.isEmpty || req.clenHeader = ['0'])
+    if bodylessMethods.contains req.method && decide (req.contentLength = 0)
     then .error (415, none) else .error (406, none)
   | r :: _ => .ok r
 
